@@ -75,6 +75,23 @@ def absorb(v, res, rule, level_keys=True):
         v.violation(viol["signature"], viol["what"], viol["replay"], no_input=(":model-assumption:" in viol["signature"]))
 
 
+def client_entry_points(v, pid, tier, seed, prefixes):
+    """The real client.HTTPClient (JSON over HTTP, protocol.To*Proof, *Verify and *AutoVerify) against an authentic
+    snapshot store and an honest / adversarial / forked server (`clientv`); oracle = the published log."""
+    s, res = harness(v, pid, "core", "clientv", tier, seed)
+    try:
+        st = res.get("stats", {})
+        v.coverage.setdefault("distribution", {}).update({"clientv_" + k: n for k, n in st.items()})
+        v.coverage["evaluations"] = v.coverage.get("evaluations", 0) + st.get("evaluations", 0)
+        v.coverage["distinct_nontrivial"] = v.coverage.get("distinct_nontrivial", 0) + st.get("distinct_nontrivial", 0)
+        v.coverage.setdefault("samples", []).extend([dict(clientv=x) for x in (res.get("samples") or [])])
+        for viol in (res.get("violations") or []):
+            if viol["signature"].startswith(tuple(prefixes)):
+                v.violation(viol["signature"], viol["what"], viol["replay"])
+    finally:
+        s.cleanup()
+
+
 def hyperb_tie(v, pid, tier, seed, theorem):
     """The batch-level hyper model (Hyper/HyperBatch.v) against balloon/hyper: tables, root hashes, searches and
     re-opened trees of the `hyperb` command.  Used by every property whose theorems speak about that model."""
